@@ -51,6 +51,11 @@ pub struct C11Case {
     /// bytes (longer than any buffer between the producer and the staging file)
     #[serde(default)]
     pub long_rest: usize,
+    /// Layer 3b: the built bedgraphtobigwig / bedtobigbed binaries on this input with every
+    /// thread count x --parallel x --inmemory (two_pass selects --single-pass off): the output
+    /// files must be byte-identical
+    #[serde(default)]
+    pub cli: bool,
 }
 
 struct Ctl {
@@ -382,6 +387,57 @@ fn run_conv(c: &C11Case, out: &mut Outcome) {
     explore(c.bound, &tags, Some(&single_text), &mut |y| execute_conv(c, &path, y), first, out);
 }
 
+/// Layer 3b: forward conversion with the built binaries under every thread count, --parallel
+/// mode and buffering; all output files byte-identical (sampling over OS schedules).
+fn run_cli_sweep(c: &C11Case, out: &mut Outcome) {
+    use crate::clifam::{run_in, workdir};
+    let mut tags = c11_tags(c);
+    tags.push("cli".into());
+    let wd = workdir();
+    let dir = wd.path();
+    std::fs::write(dir.join("in.txt"), input_text(c)).unwrap();
+    let sizes: String = names(c.nchrom).into_iter().map(|n| format!("{}\t{}\n", n, (3 * c.items + 20).max(20000))).collect();
+    std::fs::write(dir.join("sizes"), sizes).unwrap();
+    let mut first: Option<(Vec<String>, Vec<u8>)> = None;
+    for threads in [1usize, 2, 3, 6, 16] {
+        for parallel in ["no", "yes", "auto"] {
+            for inmemory in [false, true] {
+                let name = format!("out_{}_{}_{}.bb", threads, parallel, inmemory);
+                let mut argv: Vec<String> = vec![if c.bed { "bedtobigbed".into() } else { "bedgraphtobigwig".into() }, "in.txt".into(), "sizes".into(), name.clone(), "-t".into(), threads.to_string(), "-p".into(), parallel.into()];
+                if !c.two_pass {
+                    argv.push("--single-pass".into());
+                }
+                if inmemory {
+                    argv.push("--inmemory".into());
+                }
+                let r = run_in(dir, &argv);
+                out.count("cli_sweep_runs", 1);
+                if r.stderr.starts_with("HARNESS") {
+                    out.fail("harness_panic", &[], r.stderr);
+                    return;
+                }
+                if r.timed_out || r.code != Some(0) {
+                    out.fail("write_failed_under_some_configuration", &tags, format!("{:?}: exit {:?} stderr {}", argv, r.code, r.stderr.chars().take(300).collect::<String>()));
+                    continue;
+                }
+                let bytes = std::fs::read(dir.join(&name)).unwrap_or_default();
+                let _ = std::fs::remove_file(dir.join(&name));
+                match &first {
+                    None => first = Some((argv, bytes)),
+                    Some((a0, b0)) => {
+                        if *b0 != bytes {
+                            out.fail("bytes_depend_on_configuration", &tags, format!("{:?} wrote {} bytes that differ from the {} bytes of {:?}", argv, bytes.len(), b0.len(), a0));
+                        }
+                    }
+                }
+            }
+        }
+    }
+    if let Some((_, b)) = &first {
+        out.outcome_hash = Some(fnv(b));
+    }
+}
+
 pub struct C11;
 
 fn c11_tags(c: &C11Case) -> Vec<String> {
@@ -414,15 +470,15 @@ impl Check for C11 {
                         if quick && source == Source::SerialFile && (nchrom == 3) {
                             continue;
                         }
-                        v.push(C11Case { bed, nchrom, items: 3, ips, source, two_pass, chan, inmemory, bound: 2, sweep_threads: None, conv: false, long_rest: 0 });
+                        v.push(C11Case { bed, nchrom, items: 3, ips, source, two_pass, chan, inmemory, bound: 2, sweep_threads: None, conv: false, long_rest: 0, cli: false });
                     }
                     if source == Source::ParallelFile {
                         // more chromosomes than the parallel source queues at once (4 + 1)
-                        v.push(C11Case { bed, nchrom: 6, items: 2, ips: 1, source, two_pass, chan: 100, inmemory: true, bound: 2, sweep_threads: None, conv: false, long_rest: 0 });
+                        v.push(C11Case { bed, nchrom: 6, items: 2, ips: 1, source, two_pass, chan: 100, inmemory: true, bound: 2, sweep_threads: None, conv: false, long_rest: 0, cli: false });
                     }
                     if !quick {
                         // bound 3 on the smallest scenario of each kind
-                        v.push(C11Case { bed, nchrom: 2, items: 2, ips: 1, source, two_pass, chan: 0, inmemory: true, bound: 3, sweep_threads: None, conv: false, long_rest: 0 });
+                        v.push(C11Case { bed, nchrom: 2, items: 2, ips: 1, source, two_pass, chan: 0, inmemory: true, bound: 3, sweep_threads: None, conv: false, long_rest: 0, cli: false });
                     }
                 }
             }
@@ -436,12 +492,18 @@ impl Check for C11 {
                 vec![(2, 2, 1, true, 3), (3, 2, 2, false, 3), (4, 1, 6, true, 3), (3, 3, 1, false, 2), (4, 2, 3, true, 2), (4, 2, 16, false, 2)]
             };
             for (nchrom, items, threads, inmemory, bound) in combos {
-                v.push(C11Case { bed, nchrom, items, ips: 2, source: Source::SerialIter, two_pass: false, chan: threads, inmemory, bound, sweep_threads: None, conv: true, long_rest: 0 });
+                v.push(C11Case { bed, nchrom, items, ips: 2, source: Source::SerialIter, two_pass: false, chan: threads, inmemory, bound, sweep_threads: None, conv: true, long_rest: 0, cli: false });
             }
         }
         // a line longer than every buffer on the way (70 KB), staged in memory and in a file
         for inmemory in [true, false] {
-            v.push(C11Case { bed: true, nchrom: 2, items: 2, ips: 2, source: Source::SerialIter, two_pass: false, chan: 2, inmemory, bound: 1, sweep_threads: None, conv: true, long_rest: 70_000 });
+            v.push(C11Case { bed: true, nchrom: 2, items: 2, ips: 2, source: Source::SerialIter, two_pass: false, chan: 2, inmemory, bound: 1, sweep_threads: None, conv: true, long_rest: 70_000, cli: false });
+        }
+        // layer 3b: the same sweep through the built converter binaries
+        for bed in [false, true] {
+            for two_pass in [false, true] {
+                v.push(C11Case { bed, nchrom: 8, items: 40, ips: 4, source: Source::SerialFile, two_pass, chan: 100, inmemory: false, bound: 0, sweep_threads: Some(0), conv: false, long_rest: 0, cli: true });
+            }
         }
         // layer 3: configuration sweep on real runtimes (sampling over OS schedules)
         let threads: Vec<usize> = if quick { vec![1, 2, 4, 8, 16] } else { (1..=16).collect() };
@@ -453,7 +515,7 @@ impl Check for C11 {
                             if quick && (t + chan) % 2 == 1 {
                                 continue;
                             }
-                            v.push(C11Case { bed, nchrom: 8, items: 40, ips: 4, source, two_pass, chan, inmemory, bound: 0, sweep_threads: Some(t), conv: false, long_rest: 0 });
+                            v.push(C11Case { bed, nchrom: 8, items: 40, ips: 4, source, two_pass, chan, inmemory, bound: 0, sweep_threads: Some(t), conv: false, long_rest: 0, cli: false });
                         }
                     }
                 }
@@ -465,6 +527,10 @@ impl Check for C11 {
         out.nontrivial = true;
         if c.conv {
             run_conv(c, out);
+            return;
+        }
+        if c.cli {
+            run_cli_sweep(c, out);
             return;
         }
         let tags = c11_tags(c);
@@ -528,6 +594,7 @@ impl Check for C11 {
             "layer1_scenarios": "bigWig/bigBed x {serial iterator, serial file, parallel file} x {single, two-pass} x (chromosomes, items_per_slot, channel size, buffering) combinations",
             "deviation_bound": if q { "2 (all executions with 0, 1, 2 yields)" } else { "2 on all scenarios, 3 on the smallest of each kind" },
             "hook_points": "task starts and hand-offs in bbiwrite.rs, bigwigwrite.rs, bigbedwrite.rs, beddata.rs (cfg bigtools_verif)",
+            "layer3b_cli_sweep": "bedgraphtobigwig / bedtobigbed binaries x threads {1,2,3,6,16} x --parallel {no,yes,auto} x --inmemory x pass mode on an 8-chromosome input: output files byte-identical (sampling over OS schedules; supplementary)",
             "layer3_sweep": "threads x {current, multi} x channel {0,1,100} x buffering x {serial, parallel} x pass, 3 repetitions each (sampling over OS schedules; supplementary)",
         })
     }
